@@ -1709,3 +1709,70 @@ func definitelyNonNilErr(ret *ssa.Return, e ssa.Value) bool {
 	}
 	return guarded(e)
 }
+
+// appendedElems: the values an element of the list term l can be when l is built only by make + append of single
+// values (a list collected in one loop and walked in another). ok=false when part of the list comes from elsewhere.
+func appendedElems(l *Term, depth int) (out []*Term, ok bool) {
+	if depth > 12 {
+		return nil, false
+	}
+	l = uncell(l)
+	switch {
+	case l.Op == "rec":
+		return nil, true
+	case l.Op == "makeslice", l.Op == "zero", l.Op == "const" && l.Name == "nil":
+		return nil, true
+	case l.Op == "phi":
+		for _, a := range l.Args {
+			es, ok := appendedElems(a, depth+1)
+			if !ok {
+				return nil, false
+			}
+			out = append(out, es...)
+		}
+		return out, true
+	case l.Op == "builtin" && l.Name == "append" && len(l.Args) == 2:
+		base, ok := appendedElems(l.Args[0], depth+1)
+		if !ok {
+			return nil, false
+		}
+		add := uncell(l.Args[1])
+		if add.Op != "slice" || len(add.Args) == 0 {
+			return nil, false
+		}
+		arr := uncell(add.Args[0])
+		for arr.Op == "new" || arr.Op == "deref" || arr.Op == "allocref" {
+			if len(arr.Args) == 0 {
+				return nil, false
+			}
+			arr = uncell(arr.Args[0])
+		}
+		if arr.Op != "upd" {
+			return nil, false
+		}
+		for _, fs := range arr.Args[1:] {
+			if fs.Op != "fset" || !strings.HasPrefix(fs.Name, "[") || len(fs.Args) != 1 {
+				return nil, false
+			}
+			base = append(base, fs.Args[0])
+		}
+		return base, true
+	}
+	return nil, false
+}
+
+// expandBuiltElem: elem(L, i) with L a list built by appends → the alternatives of what was appended (as a phi).
+func expandBuiltElem(t *Term) *Term {
+	u := uncell(t)
+	if u.Op != "elem" || len(u.Args) < 1 {
+		return t
+	}
+	es, ok := appendedElems(u.Args[0], 0)
+	if !ok || len(es) == 0 {
+		return t
+	}
+	if len(es) == 1 {
+		return es[0]
+	}
+	return &Term{Op: "phi", Args: es, V: u.V}
+}
